@@ -239,3 +239,106 @@ func extractJpOps(repo, out string) ([]string, error) {
 	}
 	return nil, nil
 }
+
+// ---- facts about jp/parse.go for the sub-check C06jp ----------------------------------------------------------------
+//
+// Gen/JpFacts.lean: for each of the five places where the parser used to index or slice its buffer without
+// looking at its length (fixed in a3a42a0), is the bounds check there? Read from the syntax tree, not from
+// the text: the condition of an if statement (and what it guards), the argument of bytes.Index.
+
+func init() {
+	registerExtra(extractJpFacts)
+}
+
+func exprText(fset *token.FileSet, src []byte, n ast.Node) string {
+	return strings.Join(strings.Fields(string(src[fset.Position(n.Pos()).Offset:fset.Position(n.End()).Offset])), " ")
+}
+
+func extractJpFacts(repo, out string) ([]string, error) {
+	path := filepath.Join(repo, "jp", "parse.go")
+	src, err := os.ReadFile(path)
+	if err != nil {
+		return nil, err
+	}
+	fset := token.NewFileSet()
+	f, err := parser.ParseFile(fset, path, src, 0)
+	if err != nil {
+		return nil, err
+	}
+	funcs := map[string]*ast.FuncDecl{}
+	for _, d := range f.Decls {
+		if fd, ok := d.(*ast.FuncDecl); ok && fd.Recv != nil && fd.Body != nil {
+			funcs[fd.Name.Name] = fd
+		}
+	}
+	for _, need := range []string{"readStr", "readRegex", "readEscStr", "readOpArgs", "readProc"} {
+		if funcs[need] == nil {
+			return nil, fmt.Errorf("jp/parse.go: method %s not found", need)
+		}
+	}
+	// an if statement with this condition whose body raises (p.raise(…)) or jumps to the failure label
+	guarded := func(fd *ast.FuncDecl, cond string, prefix bool) bool {
+		found := false
+		ast.Inspect(fd.Body, func(n ast.Node) bool {
+			is, ok := n.(*ast.IfStmt)
+			if !ok {
+				return true
+			}
+			c := exprText(fset, src, is.Cond)
+			if c == cond || (prefix && strings.HasPrefix(c, cond)) {
+				b := exprText(fset, src, is.Body)
+				if strings.Contains(b, "p.raise(") || strings.Contains(b, "goto fail") {
+					found = true
+				}
+			}
+			return true
+		})
+		return found
+	}
+	// readEscStr: the check is the first statement of the `case '\\':` clause
+	escGuard := false
+	ast.Inspect(funcs["readEscStr"].Body, func(n ast.Node) bool {
+		cc, ok := n.(*ast.CaseClause)
+		if !ok || len(cc.List) != 1 || exprText(fset, src, cc.List[0]) != `'\\'` || len(cc.Body) == 0 {
+			return true
+		}
+		if is, ok := cc.Body[0].(*ast.IfStmt); ok && exprText(fset, src, is.Cond) == "len(p.buf) <= p.pos" &&
+			strings.Contains(exprText(fset, src, is.Body), "goto fail") {
+			escGuard = true
+		}
+		return true
+	})
+	// readOpArgs: the first statement tests the length before it looks at the byte
+	opGuard := false
+	if b := funcs["readOpArgs"].Body.List; len(b) > 0 {
+		if is, ok := b[0].(*ast.IfStmt); ok && strings.HasPrefix(exprText(fset, src, is.Cond), "len(p.buf) <= p.pos ||") &&
+			strings.Contains(exprText(fset, src, is.Body), "p.raise(") {
+			opGuard = true
+		}
+	}
+	// readProc: bytes.Index searches from the current position on
+	procFrom := false
+	ast.Inspect(funcs["readProc"].Body, func(n ast.Node) bool {
+		if ce, ok := n.(*ast.CallExpr); ok && exprText(fset, src, ce.Fun) == "bytes.Index" && len(ce.Args) == 2 {
+			procFrom = exprText(fset, src, ce.Args[0]) == "p.buf[p.pos:]"
+		}
+		return true
+	})
+	var b strings.Builder
+	b.WriteString("/- GENERATED by /verif/tools/extract (jptext.go) from jp/parse.go — do not edit; rewritten on every run. -/\n")
+	b.WriteString("namespace OjgVerif.Gen.JpFacts\n\n")
+	fmt.Fprintf(&b, "/-- readStr: `if p.pos == start { p.raise(…) }` before `p.buf[start : p.pos-1]` -/\ndef readStrGuard : Bool := %v\n\n", guarded(funcs["readStr"], "p.pos == start", false))
+	fmt.Fprintf(&b, "/-- readRegex: `if p.pos == start { p.raise(…) }` before the source is sliced out -/\ndef readRegexGuard : Bool := %v\n\n", guarded(funcs["readRegex"], "p.pos == start", false))
+	fmt.Fprintf(&b, "/-- readEscStr: `if len(p.buf) <= p.pos { goto fail }` first in `case '\\\\':` -/\ndef readEscStrGuard : Bool := %v\n\n", escGuard)
+	fmt.Fprintf(&b, "/-- readOpArgs: `len(p.buf) <= p.pos ||` in front of `p.buf[p.pos] != '('` -/\ndef readOpArgsGuard : Bool := %v\n\n", opGuard)
+	fmt.Fprintf(&b, "/-- readProc: `bytes.Index(p.buf[p.pos:], …)` -/\ndef readProcFromPos : Bool := %v\n\n", procFrom)
+	b.WriteString("end OjgVerif.Gen.JpFacts\n")
+	ch, err := writeIfChanged(filepath.Join(out, "JpFacts.lean"), b.String())
+	if err != nil {
+		return nil, err
+	}
+	if ch {
+		return []string{"JpFacts"}, nil
+	}
+	return nil, nil
+}
